@@ -291,6 +291,21 @@ def run_fide_third_party(ctx):
                 r.oracle_fail("emitter", rreq, "denotes:same-model", "; ".join(diffs[:4]))
             for fail in fmt.graph_wf(holder["fm"], written=fmt.written_names(m)):
                 r.oracle_fail("emitter", rreq, "graph:" + fail[0], fail[1])
+            # one malformation of this document: a <var> left without a name.  Whatever the reader accepts has to be a
+            # model whose constraints can be asked for their features
+            vars_ = [k for k in iter_xdoc(d) if k["tag"] == "var"]
+            if vars_ and g.rng.random() < 0.3:
+                g.rng.choice(vars_)["text"] = None
+                g.count("fide_malformed", "empty-var")
+                fmt.write_xdoc(d, path)
+                rreq = sx.dumps(tag("fide_read", read_xml_file(path)))
+                mread = ctx.model.call_raw(rreq)
+                holder = {}
+                iread = sx.dumps(fmt.result_pfm(read_file))
+                r.record("malformed", rreq, iread, mread)
+                if "fm" in holder:
+                    for fail in fmt.graph_wf(holder["fm"]):
+                        r.oracle_fail("malformed", rreq, "graph:" + fail[0], fail[1])
     finally:
         sc.close()
 
@@ -462,7 +477,10 @@ def check_fama_file(ctx, r, label, path, m, stats=None):
 
     def read_file():
         with contextlib.redirect_stderr(io.StringIO()):
-            holder["fm"] = XMLReader(path).transform()
+            reader = XMLReader(path)
+            if label != "corpus":
+                reader.transform()          # the same reader object asked twice: the second answer is the one compared
+            holder["fm"] = reader.transform()
         return holder["fm"]
     iread = sx.dumps(fmt.result_pfm(read_file))
     case = rreq if len(rreq) < 20000 else f"(fama_read (file \"{path}\"))"
